@@ -6,7 +6,7 @@ in : {"op":"res","tree":T,"pos":[text…],"anc":n,"vroot":[b…]|null,"els":[tex
        T = {"g":bool,"k":[[name,T],…]}
      {"op":"find","tree":T,"start":[text…],"path":{"s":text}|{"t":[text…]}}
      {"op":"quote","seg":text}
-out: res   → every observable of the resource at `pos` (paths, lookups, ResourceURL, URL, virtual_root, the
+out: res   → {"err":"unicodedecode"} when the header is not UTF-8 (ResourceURL raises), else every observable of the resource at `pos` (paths, lookups, ResourceURL, URL, virtual_root, the
              generated URL requested back) + "spec" (what the property demands, Lemmas/ResourceUrlSpec.lean)
      find  → {"ok":position} | {"err":…}
      quote → {"q":text,"back":text|null}     (quote_path_segment, and percent-decode + UTF-8 decode of it) -/
@@ -92,28 +92,30 @@ def handle (j : Json) : Except String Json := do
     let script ← textOf (← getField j "script")
     let a := pos.take anc
     let q := pos.drop anc
-    let u := resourceURL pos vroot
     let relStr : Text := if q = [] then [] else joinPathTuple q
-    let url0 := resourceUrl [] pos vroot []
     let vt : Option (List Seg) := vroot.bind headerVroot
-    pure (Json.mkObj [
-      ("rpt", jTexts (resourcePathTuple pos els)),
-      ("rp", jText (resourcePath pos els)),
-      ("fas", jOut jTexts (findResource tree a (.str (resourcePath pos [])))),
-      ("fat", jOut jTexts (findResource tree a (.tup (resourcePathTuple pos [])))),
-      ("frs", jOut jTexts (findResource tree a (.str relStr))),
-      ("frt", jOut jTexts (findResource tree a (.tup q))),
-      ("phys", jText u.physicalPath), ("virt", jText u.virtualPath),
-      ("physt", jTexts u.physicalPathTuple), ("virtt", jTexts u.virtualPathTuple),
-      ("url", jText (resourceUrl app pos vroot els)),
-      ("rpath", jText (resourceUrl script pos vroot els)),
-      ("vr", jOut jTexts (virtualRoot tree pos vroot)),
-      ("back", jOut jResult (requestBack tree url0 vroot)),
-      ("spec", Json.mkObj [
-        ("vt", jOpt jTexts vt),
-        ("virt", jText (specVirtualPath pos vt)),
-        ("url", jText (specUrl app pos vt els)),
-        ("inside", jOpt (fun v => Json.bool (inside v pos)) vt)])])
+    match resourceURL pos vroot, resourceUrl app pos vroot els, resourceUrl script pos vroot els, resourceUrl [] pos vroot [] with
+    | .ok u, .ok url, .ok rpath, .ok url0 =>
+      pure (Json.mkObj [
+        ("rpt", jTexts (resourcePathTuple pos els)),
+        ("rp", jText (resourcePath pos els)),
+        ("fas", jOut jTexts (findResource tree a (.str (resourcePath pos [])))),
+        ("fat", jOut jTexts (findResource tree a (.tup (resourcePathTuple pos [])))),
+        ("frs", jOut jTexts (findResource tree a (.str relStr))),
+        ("frt", jOut jTexts (findResource tree a (.tup q))),
+        ("phys", jText u.physicalPath), ("virt", jText u.virtualPath),
+        ("physt", jTexts u.physicalPathTuple), ("virtt", jTexts u.virtualPathTuple),
+        ("url", jText url),
+        ("rpath", jText rpath),
+        ("vr", jOut jTexts (virtualRoot tree pos vroot)),
+        ("back", jOut jResult (requestBack tree url0 vroot)),
+        ("spec", Json.mkObj [
+          ("vt", jOpt jTexts vt),
+          ("virt", jText (specVirtualPath pos vt)),
+          ("url", jText (specUrl app pos vt els)),
+          ("inside", jOpt (fun v => Json.bool (inside v pos)) vt)])])
+    | .error e, _, _, _ => pure (Json.mkObj [("err", Json.str (errName e))])
+    | _, _, _, _ => throw "resourceUrl fails where resourceURL does not"
   | "find" =>
     let tree ← parseTree (← getField j "tree")
     let start ← textsOf (← getField j "start")
